@@ -8,19 +8,23 @@ from vlib import common
 from vlib.common import VERIF
 
 NAME = "srcpos"
-BUILD_TARGETS = ["AldorVerif.Props.C15"]
-SOURCES = ["srcpos.c", "srcpos.h", "include.c", "srcline.c", "srcline.h"]
+BUILD_TARGETS = ["AldorVerif.Props.C15", "AldorVerif.Props.C15Report"]
+SOURCES = ["srcpos.c", "srcpos.h", "include.c", "srcline.c", "srcline.h", "comsg.c", "util.c"]
 MODELLED = ("srcpos.c: SPOS_* field macros, sposSet sposNone sposTop sposEnd sposGet sposOffset sposEqual sposMin "
             "sposMax sposIsMacroExpanded sposMacroExpanded sposCmp sposIsSpecial sposGlobalLine sposChar sposInit "
             "sposNew sposGrowGloLineTbl sposFile sposLine; include.c: line/serial/fileState bookkeeping of "
             "includeFile inclFile inclLine inclHandleLine inclHandleInclude SysCmdLine (real includer run on "
             "materialised files); scan.c: scTokPos = sposOffset(linePos, char) "
+            "; comsg.c: comsgFini/comsgReportFile/comsgReportLine = reverse, lisort (util.c) by sposCmp, runs "
+            "of one GLOBAL line, consecutive-same-text filter (real comsgFini driven at includer-made positions) "
             "(not: sposTableTo/FrBuffer sposLineText sposGLine spstack*, #if evaluation, assertions, printing)")
 THEOREMS = [("AldorVerif.Props.C15", "AldorVerif.SrcPos." + t) for t in (
     "pack_roundtrip", "column_carry", "column_carry_witness", "sposSet_unmasked", "column_exact_partial",
     "column_exact_statement_refuted", "sposCmp_lex", "file_line_of_gline", "incl_decode_partial",
     "incl_decode_statement_refuted", "stale_false_flat", "include_attribution", "include_attribution_return", "hash_line_renumber",
-    "blank_insertion_shift", "token_decode", "include_attribution_carry_statement_refuted")]
+    "blank_insertion_shift", "token_decode", "include_attribution_carry_statement_refuted")] + [
+    ("AldorVerif.Props.C15Report", "AldorVerif.ComsgReport." + t) for t in (
+    "report_shows_every_distinct_message_under_its_own_file", "report_shows_distinct_message_itself")]
 
 # what the property's quantifier covers
 MAXCOL = 20001            # line lengths up to 20000 characters, columns are 1-based
@@ -81,6 +85,75 @@ def parse_marks(ans):
     rest = " ".join(toks[j:])
     m = re.match(r"(T\d+/\d+\[.*\]) total=(-?\d+)$", rest)
     return marks, m.group(1), int(m.group(2))
+
+def split_errs(toks):
+    """`open f ev ... err d id prio ...` -> (events without err, [(mark index, d, id, prio)])"""
+    ev, errs, nmark, i = [toks[0], toks[1]], [], 0, 2
+    while i < len(toks):
+        e = toks[i]
+        if e == "err":
+            if nmark > 0: errs.append((nmark - 1, int(toks[i + 1]), toks[i + 2], int(toks[i + 3])))
+            i += 4; continue
+        n = {"lines": 2, "hl": 3, "inc": 2}.get(e, 1)
+        if e in ("line", "ifz", "endif", "inc"): nmark += 1
+        elif e == "lines": nmark += int(toks[i + 1])
+        ev += toks[i:i + n]; i += n
+    return ev, errs
+
+def report_oracle(toks):
+    """what the report must look like: every message under the header of its own file and line
+    (one block per source line that has messages, in reading order), inside a block ordered by
+    column then generation, a message left out only when its text repeats the one before it"""
+    ev, errs = split_errs(toks)
+    marks, _, _ = book(ev)
+    order = sorted(range(len(errs)), key=lambda j: (errs[j][3], j))
+    msgs = []
+    for j in order:
+        mk, d, ident, _ = errs[j]
+        if mk < len(marks):
+            msgs.append((mk, 1 + d, len(msgs) + 1, "m" + ident))
+    out, n = [], 0
+    for mk in sorted({m[0] for m in msgs}):
+        f, l = marks[mk]
+        out.append("H:%s:%d" % (f, l))
+        last = ""
+        for (_, c, ser, tx) in sorted([m for m in msgs if m[0] == mk], key=lambda m: (m[1], m[2])):
+            if tx != last:
+                out.append("M:%d:%d:%d:%s" % (l, c, ser, tx)); n += 1
+            last = tx
+        # (position order is (line, column); generation order breaks ties)
+    return " ".join(out + ["n=%d" % n])
+
+def gen_report_file(rng, names, depth, budget, phys_named):
+    """events of one file for an R request: never a same-name situation, renumbered lines exist"""
+    ev, phys, named = [], 0, phys_named
+    for _ in range(rng.randint(1, 6)):
+        if budget[0] <= 0: break
+        budget[0] -= 1
+        r = rng.random()
+        if r < 0.55:
+            ev.append("line"); phys += 1
+            if rng.random() < 0.6:
+                for _ in range(rng.choice((1, 1, 1, 2, 3))):
+                    ev += ["err", str(rng.choice((0, 0, 5, 5, 6, 14, 40))), rng.choice("aabcx"), str(rng.randint(0, 9))]
+        elif r < 0.65:
+            n = rng.randint(0, 4); ev += ["lines", str(n)]; phys += n
+        elif r < 0.72:
+            k = rng.randint(0, 2); ev += ["ifz"] + ["skip"] * k + ["endif"]; phys += k + 2
+        elif r < 0.86:
+            if rng.random() < 0.5:
+                ev += ["hl", str(rng.randint(1, 12)), rng.choice(("g%d.as", "h%d.as")) % depth]; named = True
+            else:
+                ev += ["hl", str(rng.randint(1, 12) if named else rng.randint(1, phys + 2)), "-"]
+            phys += 1
+        elif depth < 2:
+            names[0] += 1
+            f = "f%d.as" % names[0]
+            ev += ["inc", f]
+            if rng.random() < 0.3:          # a message on the #include line itself
+                ev += ["err", "0", rng.choice("ab"), str(rng.randint(0, 9))]
+            ev += gen_report_file(rng, names, depth + 1, budget, False) + ["close"]; phys += 1
+    return ev
 
 # ------------------------------------------------------------------ generators
 def boundary_values(w):
@@ -173,6 +246,8 @@ def gen_requests(ctx, w):
                 if l and not l.startswith("#"):
                     if l.startswith("I "):
                         add(l, kind="I", events=l.split()[1:], corpus=True)
+                    elif l.startswith("R "):
+                        add(l, kind="R", toks=l.split()[1:], corpus=True)
                     else:
                         add(l, kind=l.split()[0], corpus=True)
     ncorpus = len(lines)
@@ -287,6 +362,42 @@ def gen_requests(ctx, w):
             if si == 3 and not thorough and k > 16384: continue
             ev2 = insert_at(ev, pos, k)
             add("I " + " ".join(ev2), kind="I", events=ev2, base=ev, pos=pos, k=k)
+    # the report (real comsgFini) on messages at includer-made positions
+    import itertools
+    def addR(ev):
+        add("R " + " ".join(ev), kind="R", toks=ev)
+    # boundaries of an include: a message just before the #include, on the included file's first
+    # and last line, and on the line after; every generation order; identical and different texts
+    for texts in (("a", "a", "a", "a"), ("a", "b", "c", "d"), ("a", "a", "b", "b")):
+        for mid in (0, 1, 3):
+            for perm in itertools.permutations(range(4)):
+                ev = ["open", "a.as", "line", "err", "5", texts[0], str(perm[0]), "inc", "inc.as",
+                      "line", "err", "5", texts[1], str(perm[1])] + ["line"] * mid + \
+                     ["line", "err", "5", texts[2], str(perm[2]), "close", "line", "err", "5", texts[3], str(perm[3])]
+                addR(ev)
+    # local line numbers that coincide across files / across a #line: sweep k blank lines
+    for k in range(0, 9):
+        for tx in (("a", "a"), ("a", "b")):
+            for pr in ((0, 1), (1, 0)):
+                addR(["open", "a.as", "line", "inc", "inc.as", "lines", str(k), "line", "err", "6", tx[0], str(pr[0]), "close",
+                      "lines", "2", "line", "err", "6", tx[1], str(pr[1])])
+                addR(["open", "a.as", "lines", str(k), "line", "err", "6", tx[0], str(pr[0]), "hl", "4", "g.as",
+                      "line", "err", "6", tx[1], str(pr[1])])
+                addR(["open", "a.as", "inc", "i1.as", "lines", str(k), "line", "err", "6", tx[0], str(pr[0]), "close",
+                      "inc", "i2.as", "lines", "3", "line", "err", "6", tx[1], str(pr[1]), "close",
+                      "hl", "4", "-", "line", "err", "6", tx[0], "2"])
+    for _ in range(700 if not thorough else 7000):
+        names = [0]
+        ev = ["open", "a.as"] + gen_report_file(rng, names, 0, [rng.randint(3, 14)], False)
+        if "err" in ev:
+            addR(ev)
+            if rng.random() < 0.5:
+                # the same with k lines in front of one of the message lines
+                idx = [i for i, t in enumerate(ev) if t == "err" and ev[i - 1] == "line"]
+                if idx:
+                    at = rng.choice(idx) - 1
+                    for k in range(1, 9):
+                        addR(ev[:at] + ["lines", str(k)] + ev[at:])
     return lines, meta, ncorpus
 
 # ------------------------------------------------------------------ property on one answer
@@ -346,6 +457,11 @@ def check_answer(w, ln, m, ans, answers_by_line):
             if (ff, int(ll), int(cc)) != (f, l & M64, c):
                 only_carry = c >= CN
                 return False, "position %s decodes to %s:%s:%s, intended %s:%d:%d" % (hx, ff, ll, cc, f, l, c), ("carry" if only_carry and c <= MAXCOL else None)
+        return True, "", None
+    if kind == "R":
+        want = report_oracle(m["toks"])
+        if ans != want:
+            return False, "report is not `every message under its own file/line header`: expected %s" % want[:600], None
         return True, "", None
     if kind == "I":
         ev = m["events"]
@@ -555,12 +671,16 @@ def e2e(ctx, build, w):
                   {"a.as": J(['#include "aldor"', '#include "inc.as"', '', '', 'y := otherUndefined;']),
                    "inc.as": J(['#line 7 "a.as"', 'z := 1;'])},
                   (lambda L: ("a.as", 7 if L == 2 else L))))
+    multi = multi_cases()
     results = {}
     def work(cs):
         return cs, compile_case(build, cs[3], cs[4])
     with concurrent.futures.ThreadPoolExecutor(max_workers=max(2, min(common.NCPU, 12))) as ex:
         for cs, (rc, out) in ex.map(work, cases):
             results[(cs[0], cs[1], cs[2])] = (rc, out, cs)
+        mres = {}
+        for cs, (rc, out) in ex.map(work, multi):
+            mres[(cs[0], cs[1], cs[2])] = (rc, out, cs)
     st = {"compiles": len(cases), "compared": 0, "diagnostics": 0, "carry": 0, "stale": 0, "mismatch": 0, "base_without_errors": 0}
     for (name, mode, k), (rc, out, cs) in sorted(results.items(), key=lambda x: (x[0][0], x[0][1], x[0][2])):
         if mode == "base":
@@ -599,4 +719,78 @@ def e2e(ctx, build, w):
         else:
             st["mismatch"] += 1
             ctx.finding("srcpos|e2e-shift|%s|%s" % (mode, name), "end to end: " + what, replay)
+    check_multi(ctx, mres, st)
     return st
+
+# ---- several faulty constructs spread over the main file, included files and #line regions ----
+PRE = ['#include "aldor"', 'import from Integer, String;']
+
+def constructs(variant):
+    """four one-line faulty constructs; `identical`: four type errors with one message text at one
+    column; `distinct`: four different undefined names; `mixed`: both, one with two messages"""
+    U = lambda i: "v%d := miss%d;" % (i, i)
+    S = lambda i: "s%d: String := 1;" % i
+    if variant == "identical": return [S(1), S(2), S(3), S(4)]
+    if variant == "distinct":  return [U(1), U(2), U(3), U(4)]
+    return [S(1), "w2 := miss2 + missToo;", S(3), U(4)]
+
+def layouts(k, c):
+    """name -> (files, placements {construct index: (file, line)}); k blank/comment lines are put in
+    front of one construct; for some k in 0..8 two constructs that follow each other in the report
+    get the same file-local line number in different files (or across a #line)"""
+    B = lambda n: filler(n)
+    L = {}
+    L["inc-then-main"] = ({"a.as": PRE + ['#include "inc.as"', "", "", c[1]], "inc.as": B(k) + [c[0]]},
+                          {0: ("inc.as", k + 1), 1: ("a.as", 6)})
+    L["main-then-inc"] = ({"a.as": PRE + B(k) + [c[0], '#include "inc.as"'], "inc.as": ["", "", "", "", c[1]]},
+                          {0: ("a.as", 3 + k), 1: ("inc.as", 5)})
+    L["two-includes"] = ({"a.as": PRE + ['#include "i1.as"', '#include "i2.as"'], "i1.as": B(k) + [c[0]], "i2.as": B(3) + [c[1]]},
+                         {0: ("i1.as", k + 1), 1: ("i2.as", 4)})
+    L["hashline"] = ({"a.as": PRE + B(k) + [c[0], '#line 6 "f.as"', c[1]], "f.as": [""] * 5 + [c[1]]},
+                     {0: ("a.as", 3 + k), 1: ("f.as", 6)})
+    L["inc-main-hashline"] = ({"a.as": PRE + ['#include "inc.as"'] + B(k) + [c[2], '#line 7 "f.as"', c[3]],
+                               "inc.as": ["", c[0], "", "", c[1]], "f.as": [""] * 6 + [c[3]]},
+                              {0: ("inc.as", 2), 1: ("inc.as", 5), 2: ("a.as", 4 + k), 3: ("f.as", 7)})
+    L["boundaries"] = ({"a.as": PRE + [c[0], '#include "inc.as"', c[3]], "inc.as": [c[1]] + B(k) + [c[2]]},
+                       {0: ("a.as", 3), 1: ("inc.as", 1), 2: ("inc.as", 2 + k), 3: ("a.as", 5)})
+    return L
+
+def multi_cases():
+    J = lambda ls: "\n".join(ls) + "\n"
+    cases = []
+    for variant in ("identical", "distinct", "mixed"):
+        c = constructs(variant)
+        cases.append(("multi-" + variant, "flat", 0, "a.as", {"a.as": J(PRE + c)}, None))
+        for k in range(0, 9):
+            for lname, (files, place) in layouts(k, c).items():
+                cases.append(("multi-" + variant, lname, k, "a.as", {n: J(ls) for n, ls in files.items()}, place))
+    return cases
+
+def check_multi(ctx, mres, st):
+    st.update({"multi_compiles": len(mres), "multi_compared": 0, "multi_diagnostics": 0, "multi_mismatch": 0, "coincidences": 0})
+    for (name, lname, k), (rc, out, cs) in sorted(mres.items()):
+        if lname == "flat": continue
+        frc, fout, _ = mres[(name, "flat", 0)]
+        flat = parse_diag(fout)            # construct i stands on line 3 + i of the flat program
+        if not flat:
+            ctx.violation("srcpos|e2e-no-diagnostics|" + name, "the flat multi-fault program produces no diagnostic: " + fout[-300:],
+                          {"kind": "e2e", "output": fout[-2000:]}, found_input=False)
+            return
+        place = cs[5]
+        exp = []
+        for (f, L, C, sev, msg, hl) in flat:
+            if L - 3 in place:
+                pf, pl = place[L - 3]
+                exp.append((pf, pl, pl, C, sev, msg))        # header file, header line, [L, C], text
+        got = [(f, hl, L, C, sev, msg) for (f, L, C, sev, msg, hl) in parse_diag(out)]
+        st["multi_compared"] += 1; st["multi_diagnostics"] += len(got)
+        locs = sorted(place.values())
+        if len({l for _, l in locs}) < len(locs): st["coincidences"] += 1
+        if sorted(exp, key=repr) == sorted(got, key=repr):
+            continue
+        st["multi_mismatch"] += 1
+        ctx.finding("srcpos|e2e-report|%s|%s" % (lname, name),
+                    "end to end, %s/%s k=%d: %d diagnostics reported %s, predicted (each under the header of its own file and "
+                    "line, text and column as in the flat program) %d: %s" % (name, lname, k, len(got), sorted(got, key=repr)[:5], len(exp), sorted(exp, key=repr)[:5]),
+                    {"kind": "e2e", "layout": lname, "k": k, "program": name, "files": cs[4], "observed": out[-3000:],
+                     "predicted": [list(x) for x in exp], "flat_output": fout[-3000:]})
